@@ -14,6 +14,7 @@ import (
 	"github.com/datastax/go-cassandra-native-protocol/message"
 	"github.com/datastax/go-cassandra-native-protocol/primitive"
 
+	"verif/fakecass"
 	"verif/mon"
 	"verif/px"
 	"verif/rawcql"
@@ -145,6 +146,21 @@ func topologyUnderTraffic(c *Ctx, rep int) {
 	}
 	defer bed.Close()
 	bed.OnHook(nil)
+	// a quarter of the requests is answered UNAVAILABLE on its first attempt (the plan is walked on, later), and the answers
+	// of some are withheld across the topology steps
+	var holdNow int32
+	bed.Cluster.SetScript(func(a *fakecass.Arrival) fakecass.Outcome {
+		if a.Token == "" || a.N > 1 {
+			return fakecass.Outcome{}
+		}
+		switch a.Token[len(a.Token)-1] {
+		case '0', '4', '8', 'c':
+			o := fakecass.Err("Unavailable", &message.Unavailable{ErrorMessage: a.Token + " unavailable", Consistency: primitive.ConsistencyLevelOne, Required: 1, Alive: 0})
+			o.Hold = atomic.LoadInt32(&holdNow) == 1
+			return o
+		}
+		return fakecass.Outcome{}
+	})
 	stop := make(chan struct{})
 	var wg sync.WaitGroup
 	var sent int64
@@ -193,9 +209,14 @@ func topologyUnderTraffic(c *Ctx, rep int) {
 		if listed {
 			ct = primitive.TopologyChangeTypeNewNode
 		}
+		atomic.StoreInt32(&holdNow, 1) // retry-next answers are withheld from now on ...
+		time.Sleep(10 * time.Millisecond)
 		bed.Cluster.Emit(&message.TopologyChangeEvent{ChangeType: ct, Address: &primitive.Inet{Addr: net.ParseIP(bed.Cluster.HostIP(host)), Port: int32(bed.Cluster.Port)}})
 		waitFor(func() bool { return peers() > before }, 5*time.Second)
-		time.Sleep(60 * time.Millisecond)
+		time.Sleep(30 * time.Millisecond)
+		atomic.StoreInt32(&holdNow, 0) // ... and arrive after the change has been applied: plans drawn before it are walked on
+		bed.Cluster.ReleaseHeld(nil)
+		time.Sleep(30 * time.Millisecond)
 	}
 	// removals of hosts that are not last in the sorted list, additions in between
 	// ... and the control connection is lost and re-established between the steps (its node data are read again)
